@@ -372,12 +372,16 @@ ModelPtr Model::clone() const
 
     m->setEncapsulationId(encapsulationId());
 
+    // Import sources are cloned once each, so that the clone shares none with this model
+    // and entities sharing an import source here share one in the clone.
+    ImportSourceMap importSourceMap;
+
     for (size_t index = 0; index < pFunc()->mUnits.size(); ++index) {
-        m->addUnits(units(index)->clone());
+        m->addUnits(units(index)->pFunc()->clone(importSourceMap));
     }
 
     for (size_t index = 0; index < componentCount(); ++index) {
-        m->addComponent(component(index)->clone());
+        m->addComponent(component(index)->pFunc()->clone(importSourceMap));
     }
 
     for (size_t index = 0; index < m->componentCount(); ++index) {
